@@ -268,6 +268,15 @@ def impl_or_none(c):
     return None if m is None else repr(R.canon(m))
 
 
+def _fresh_result(sx, native, name, ov):
+    from .gates import NATIVE
+    fresh = build(sx, inject_pulses=NATIVE if native else None)
+    try:
+        return None, _result_key(_run_op(name, fresh, ov))
+    except Exception as ex:
+        return ex, None
+
+
 def c11_history(tname: str, native: bool, op1: int, op2: int, op3: int, **leaves) -> str:
     """Run up to three library calls on one shared circuit object.  After each call the deep snapshot of
     the circuit must be unchanged, and each result must equal the result of the same call on a freshly
@@ -283,7 +292,7 @@ def c11_history(tname: str, native: bool, op1: int, op2: int, op3: int, **leaves
         return "~rejected at build"
     except Exception as ex:
         return f"non-JaqalError escaped at build: {exc(ex)} :: {sx}"
-    before = snapshot(shared)
+    before = concretely(snapshot, shared)
     done = 0
     for op in (op1, op2, op3):
         if op < 0:
@@ -299,21 +308,15 @@ def c11_history(tname: str, native: bool, op1: int, op2: int, op3: int, **leaves
                 err = ex
             else:
                 return f"non-JaqalError escaped from {name}: {exc(ex)} :: {sx}"
-        after = snapshot(shared)
+        after = concretely(snapshot, shared)
         if after != before:
             return f"{name} modified its input circuit :: {sx}"
-        fresh = build(sx, inject_pulses=NATIVE if native else None)
-        ferr = fres = None
-        try:
-            fres = concretely(_run_op, name, fresh, ov) if name in ("emulate", "output_list") else _run_op(name, fresh, ov)
-        except JaqalError as ex:
-            ferr = ex
-        except Exception as ex:
-            ferr = ex
+        # the same call on a freshly built copy is the oracle: evaluated natively on the realised program
+        ferr, fkey = concretely(_fresh_result, sx, native, name, ov)
         if (err is None) != (ferr is None):
             return f"{name} on the shared circuit {'failed' if err else 'succeeded'} but on a fresh copy {'failed' if ferr else 'succeeded'} :: {sx}"
         if err is None:
-            if _result_key(res) != _result_key(fres):
+            if concretely(_result_key, res) != fkey:
                 return f"{name} gives a different result on the shared circuit than on a fresh copy :: {sx}"
             done += 1
     return "" if done else "~all calls rejected"
